@@ -936,6 +936,24 @@ package connect
 //@   ensures err != nil && !coded(err) && !Is(err, context.Canceled) && !Is(err, context.DeadlineExceeded) ==> res == err   // label: other-errors-unchanged
 //@   ensures err != nil ==> res != nil
 
+// wrapIfContextDone: an error that the transport did not mark as a context error
+// is classified by the call's own context (C15: whatever fails once the context
+// is done fails as canceled / deadline_exceeded).
+//@ func wrapIfContextDone(ctx, err) res
+//@   tags C15
+//@   requires ctx != nil
+//@   assigns cdone(ctx)
+//@   ensures err == nil ==> res == nil
+//@   ensures err != nil ==> res != nil
+//@   ensures coded(err) ==> res == err                                                               // label: coded-errors-pass-through
+//@   ensures err != nil && !coded(err) && Is(err, context.Canceled) ==> coded(res) && codeOf(res) == 1   // label: canceled-is-coded-canceled
+//@   ensures err != nil && !coded(err) && !Is(err, context.Canceled) && Is(err, context.DeadlineExceeded) ==> coded(res) && codeOf(res) == 4   // label: deadline-is-coded-deadline-exceeded
+//@   ensures err != nil && !coded(err) && !Is(err, context.Canceled) && !Is(err, context.DeadlineExceeded) && cdone(ctx) == context.Canceled ==> coded(res) && codeOf(res) == 1   // label: any-failure-under-a-canceled-context-is-canceled
+//@   ensures err != nil && !coded(err) && !Is(err, context.Canceled) && !Is(err, context.DeadlineExceeded) && cdone(ctx) == context.DeadlineExceeded ==> coded(res) && codeOf(res) == 4   // label: any-failure-under-an-expired-context-is-deadline-exceeded
+//@   ensures err != nil && !coded(err) && !Is(err, context.Canceled) && !Is(err, context.DeadlineExceeded) && cdone(ctx) == nil ==> res == err   // label: other-errors-unchanged-while-the-context-is-live
+//@   ensures err != nil && !coded(err) && !Is(err, context.Canceled) && !Is(err, context.DeadlineExceeded) ==> cdone(ctx) == nil || cdone(ctx) == context.Canceled || cdone(ctx) == context.DeadlineExceeded
+//@   ensures forall t ref :: {Is(res, t)} !fresh(t) && Is(err, t) ==> Is(res, t)                     // label: the-cause-stays-in-the-chain
+
 //@ func wrapIfUncoded(err) res
 //@   tags C02, C15, C06
 //@   ensures err == nil ==> res == nil
@@ -1010,6 +1028,8 @@ package connect
 //@   ensures called("io.ReadCloser.Read", 1) ==> n == callres("io.ReadCloser.Read", 1, 0) && (callres("io.ReadCloser.Read", 1, 1) == nil ==> err == nil) && (coded(callres("io.ReadCloser.Read", 1, 1)) ==> err == callres("io.ReadCloser.Read", 1, 1))   // label: passes-the-body's-read-through
 //@   ensures called("io.ReadCloser.Read", 1) && Is(callres("io.ReadCloser.Read", 1, 1), context.Canceled) && !coded(callres("io.ReadCloser.Read", 1, 1)) ==> coded(err) && codeOf(err) == 1   // label: cancellation-reported-by-the-body-is-canceled
 //@   ensures called("io.ReadCloser.Read", 1) && !Is(callres("io.ReadCloser.Read", 1, 1), context.Canceled) && Is(callres("io.ReadCloser.Read", 1, 1), context.DeadlineExceeded) && !coded(callres("io.ReadCloser.Read", 1, 1)) ==> coded(err) && codeOf(err) == 4   // label: expiry-reported-by-the-body-is-deadline-exceeded
+//@   ensures called("io.ReadCloser.Read", 1) && callres("io.ReadCloser.Read", 1, 1) != nil && !Is(callres("io.ReadCloser.Read", 1, 1), io.EOF) ==> called("wrapIfContextDone", 1)   // label: after-a-failed-body-read-the-call's-context-is-consulted
+//@   ensures (let e := callres("io.ReadCloser.Read", 1, 1) in called("io.ReadCloser.Read", 1) && e != nil && !Is(e, io.EOF) && !coded(e) && !Is(e, context.Canceled) && !Is(e, context.DeadlineExceeded)) ==> (cdone(d.ctx) == context.Canceled ==> coded(err) && codeOf(err) == 1) && (cdone(d.ctx) == context.DeadlineExceeded ==> coded(err) && codeOf(err) == 4)   // label: a-failed-body-read-under-a-done-context-is-canceled-or-deadline-exceeded
 
 // ---------------------------------------------------------------------------
 // connect.go: unary responses
@@ -2673,23 +2693,24 @@ package connect
 
 // duplex_http_call.go: closing the response drains and closes the body
 //@ func (*duplexHTTPCall).CloseRead(d) err
-//@   tags C04, C06
-//@   requires d != nil && (d.response != nil ==> d.response.Body != nil)
+//@   tags C04, C06, C15
+//@   requires d != nil && d.ctx != nil && (d.response != nil ==> d.response.Body != nil)
 //@   assigns everything
 //@   ensures d.response == nil ==> err == nil
+//@   ensures err != nil ==> called("wrapIfContextDone", 1) || called("wrapIfContextDone", 2)   // label: a-failed-close-is-classified-by-the-call's-context   // tags: C15
 //@ func (*connectUnaryClientConn).CloseResponse(cc) err
 //@   tags C04
-//@   requires cc != nil && cc.duplexCall != nil && (cc.duplexCall.response != nil ==> cc.duplexCall.response.Body != nil)
+//@   requires cc != nil && cc.duplexCall != nil && cc.duplexCall.ctx != nil && (cc.duplexCall.response != nil ==> cc.duplexCall.response.Body != nil)
 //@   assigns everything
 //@   ensures err == callres("(*duplexHTTPCall).CloseRead", 1)
 //@ func (*connectStreamingClientConn).CloseResponse(cc) err
 //@   tags C04
-//@   requires cc != nil && cc.duplexCall != nil && (cc.duplexCall.response != nil ==> cc.duplexCall.response.Body != nil)
+//@   requires cc != nil && cc.duplexCall != nil && cc.duplexCall.ctx != nil && (cc.duplexCall.response != nil ==> cc.duplexCall.response.Body != nil)
 //@   assigns everything
 //@   ensures err == callres("(*duplexHTTPCall).CloseRead", 1)
 //@ func (*grpcClientConn).CloseResponse(cc) err
 //@   tags C04
-//@   requires cc != nil && cc.duplexCall != nil && (cc.duplexCall.response != nil ==> cc.duplexCall.response.Body != nil)
+//@   requires cc != nil && cc.duplexCall != nil && cc.duplexCall.ctx != nil && (cc.duplexCall.response != nil ==> cc.duplexCall.response.Body != nil)
 //@   assigns everything
 //@   ensures err == callres("(*duplexHTTPCall).CloseRead", 1)
 
@@ -2776,9 +2797,10 @@ package connect
 //@   doc: "the protocol's validateResponse (both are under contract: never the zero code)"
 //@ func (*duplexHTTPCall).makeRequest(d)
 //@   tags C04, C06, C15
-//@   requires d != nil && d.httpClient != nil && d.request != nil && d.requestBodyReader != nil && d.validateResponse != nil
+//@   requires d != nil && d.ctx != nil && d.httpClient != nil && d.request != nil && d.requestBodyReader != nil && d.validateResponse != nil
 //@   assigns everything
 //@   ensures callres("HTTPClient.Do", 1, 1) != nil ==> d.err != nil && (old(d.err) == nil ==> coded(d.err) && classified(d.err))   // label: a-failed-round-trip-is-recorded-as-a-coded-error
+//@   ensures callres("HTTPClient.Do", 1, 1) != nil ==> called("wrapIfContextDone", 1)   // label: a-failed-round-trip-is-classified-by-the-call's-context-consulted-after-the-failure
 //@   assert@call(field:duplexHTTPCall.validateResponse#1): arg0 == callres("HTTPClient.Do", 1, 0) && d.response == arg0   // label: the-response-is-validated-before-anyone-reads-it
 
 // misc accessors
